@@ -634,7 +634,41 @@ def register(M):
     R('Vec::truncate', vec_truncate)
 
     def sort_by(ex, fr, c, a, st, pc):
-        raise Unsupported('sort_by with a comparator closure')
+        """stable sort with a comparator closure: bubble network of compare-exchange steps, each calling the real
+        comparator on the two current neighbours and swapping exactly when it answers Greater; positions at or
+        beyond the (symbolic) length never move.  Bound: the Vec's cell capacity."""
+        v = rd(st, a[0])
+        if isinstance(v, RefV):
+            tgt = v
+            v = rd(st, v)
+        else:
+            tgt = a[0]
+        if not isinstance(v, VecV):
+            raise Unsupported('sort_by on %r' % (v,))
+        cells = list(v.cells)
+        n = len(cells)
+        if n > 6:
+            raise Unsupported('sort_by over more than 6 cells')
+        cx = Ctx(ex, st, pc)
+        for rnd in range(n):
+            for i in range(n - 1 - rnd):
+                if cells[i] is UNDEF or cells[i + 1] is UNDEF:
+                    continue
+                g = S.Ult(b64(i + 1), v.length)
+                if g is S.FALSE:
+                    continue
+                o = cx.call(a[1], [cx.ref(cells[i], 'sortl'), cx.ref(cells[i + 1], 'sortr')], g)
+                if o is None:
+                    continue
+                if not isinstance(o, EnumV):
+                    raise Unsupported('sort_by comparator result %r' % (o,))
+                sw = S.And(g, S.Eq(o.tag, S.bv(1, o.tag.sort)))
+                if sw is S.FALSE:
+                    continue
+                x, y = cells[i], cells[i + 1]
+                cells[i], cells[i + 1] = merge(sw, y, x), merge(sw, x, y)
+        M.wr(cx.st, tgt, VecV(tuple(cells), v.length))
+        return UNIT, cx.st, cx.live
     R('slice::sort_by|slice::sort_unstable_by', sort_by)
     R('slice::sort_unstable_by_key|slice::sort_by_cached_key', M.sort_by_key)
 
